@@ -99,6 +99,24 @@ pub fn run_vamm(out: &mut dyn Write, seed: u64, thorough: bool, n_hist: usize) {
                 }
             }
         }
+        // one history in six goes on for well over a hundred trading blocks a few seconds apart, so that the TWAP
+        // windows hold more than a hundred snapshots
+        if rng.chance(1, 6) {
+            let v = ID_VAMM0;
+            tr.step(&mut w, &Op::Vamm { sender: ID_OWNER, v, m: VMsg::UpdCfg { hold: None, oi: None, toll: None, spread: None, fluct: Some(0), engine: None, ifund: None, feed: None, twap: Some(*rng.pick(&[900u64, 1800, 3600])) } });
+            let n = 110 + rng.below(60);
+            let flat = rng.chance(1, 4);
+            for _ in 0..n {
+                tr.step(&mut w, &Op::Block { dt: 3 + rng.below(6), dh: 1 });
+                let q = vamm_state(&w, v).quote_asset_reserve.u128();
+                let amt = if flat { 0 } else { q / (200 + rng.below(800) as u128) + 1 };
+                let dir = if rng.chance(1, 2) { Dir::Add } else { Dir::Rem };
+                let mvdir = if dir == Dir::Add { mv::Direction::AddToAmm } else { mv::Direction::RemoveFromAmm };
+                let quoted: Option<Uint128> = w.q(&w.addr(v), &mv::QueryMsg::InputAmount { direction: mvdir, amount: Uint128::new(amt) });
+                writeln!(tr.out, "A quoted={}", quoted.map(|x| x.to_string()).unwrap_or("err".into())).unwrap();
+                tr.step(&mut w, &Op::Vamm { sender: FAKE_ENGINE, v, m: VMsg::SwapIn { dir, q: amt, lim: 0, cgo: false } });
+            }
+        }
         tr.end();
     }
 }
